@@ -149,7 +149,9 @@ fn class_cones(rng: &mut Rng, budget: usize, kinds: &[usize]) -> Vec<SupportedCo
     while m < budget && tries < 100 {
         tries += 1;
         let left = budget - m;
-        let pick = if v.is_empty() { kinds[0] } else { *rng.choose(kinds) };
+        // classes whose definition needs two kinds together force the first two picks
+        let forced = if kinds.first() == Some(&7) { 2 } else { 1 };
+        let pick = if v.len() < forced { kinds[v.len()] } else { *rng.choose(kinds) };
         let c = match pick {
             0 => NonnegativeConeT(1 + rng.below(left.min(6))),
             1 => ZeroConeT(1),
@@ -165,9 +167,11 @@ fn class_cones(rng: &mut Rng, budget: usize, kinds: &[usize]) -> Vec<SupportedCo
                 al[0] = 1.0 - rest;
                 GenPowerConeT(al, 1 + rng.below(3))
             }
-            _ => PSDTriangleConeT(2 + rng.below(3)),
+            6 => PSDTriangleConeT(2 + rng.below(3)),
+            // second-order cones above SOC_NO_EXPANSION_MAX_SIZE = 4: sparse KKT expansion
+            _ => SecondOrderConeT(5 + rng.below(6)),
         };
-        if cone_dim(&c) <= left || v.is_empty() {
+        if cone_dim(&c) <= left || v.len() < forced {
             m += cone_dim(&c);
             v.push(c);
         }
@@ -182,6 +186,9 @@ const CLASSES: &[(&str, &[usize])] = &[
     ("exppow", &[3, 4, 0, 3, 4]),
     ("genpow", &[5, 0, 5]),
     ("psd", &[6, 0, 6]),
+    // a large (sparse-expanded) second-order cone together with exponential / power cones
+    ("socexp", &[7, 3, 4, 0, 7, 3]),
+    ("socpow", &[7, 4, 4, 0, 7, 2]),
 ];
 
 fn family_cones(rng: &mut Rng, budget: usize) -> Vec<SupportedConeT<f64>> {
@@ -538,6 +545,10 @@ const CLASS_RULE: &[(&str, u32, f64, f64)] = &[
     ("genpow", 23, 14.3, 0.01),
     // measured: mean 7.75..7.85, p95 12, 0/4000
     ("psd", 15, 9.0, 0.005),
+    // measured (seeds 1..3, 4000 each): mean 8.37..8.41, p95 12..13, <= 2/4000 not Solved
+    ("socexp", 16, 9.9, 0.005),
+    // measured: mean 8.44..8.52, p95 13, 1/4000
+    ("socpow", 16, 10.0, 0.005),
 ];
 const CLASS_SIZE: usize = 20;
 fn oracle_gc(r: &Req, out: &str) -> Result<(), String> {
